@@ -147,9 +147,11 @@ Applicable(pw, w) == CASE w \in {"empty", "shorter", "char", "nulsuffix"} -> pw 
 \* authenticated safe) - "that password" is the password as every implementation of the format understands it
 UseP12 == \E w \in {"right"} \cup WrongPwd, api \in {"DecodeAll", "Decode", "ToPEM", "StdVerify"} :
             /\ (w # "right" => Applicable(obj.pw, w))
-            /\ (api = "Decode" => (obj.keykind = "rsa" /\ obj.certs = 1))      \* Decode: one certificate, parsed by crypto/x509
+            /\ (api = "Decode" => obj.keykind = "rsa")      \* Decode: parsed by crypto/x509
             /\ use' = [pwd |-> w, api |-> api]
-            /\ result' = Decode(obj, IF w = "right" THEN obj.pw ELSE "wrong:" \o w)
+            \* Decode hands out ONE certificate with the key: a bundle that holds more is outside its contract and is
+            \* refused (handing out some other certificate of the bundle as "the" certificate would pair the key wrongly)
+            /\ result' = IF api = "Decode" /\ obj.certs > 1 THEN Err ELSE Decode(obj, IF w = "right" THEN obj.pw ELSE "wrong:" \o w)
 Use == /\ pc = "use"
        /\ (CASE obj.t = "env" -> UseEnv [] obj.t = "signed" -> UseSigned [] obj.t = "p12" -> UseP12)
        /\ pc' = "done" /\ UNCHANGED <<obj, make, tamper>>
@@ -174,7 +176,7 @@ VerifiesExactlyWhenGenuine ==
 BundleOnlyWithPassword ==
   (pc = "done" /\ make.what = "p12") =>
      /\ (result # Err => result = "key+" \o ToString(make.ncas + 1))            \* never another key or certificate
-     /\ (result # Err <=> (use.pwd = "right" /\ tamper = "none"))
+     /\ (result # Err <=> (use.pwd = "right" /\ tamper = "none" /\ (use.api = "Decode" => make.ncas = 0)))
 
 Emit == pc = "done" => PrintT(<<"CASE", ToJson([make |-> make, tamper |-> tamper, use |-> use, expect |-> result])>>)
 =============================================================================
